@@ -109,6 +109,14 @@ pub fn profile_for(id: &str, rng: &mut Rng) -> Profile {
             p.max_events = rng.range(20, 50) as u32;
         }
         "C13" => {
+            p.guards.push("vacuum_after_rolled_back_delete".into()); // D14
+            p.guards.push("ddl_after_vacuum".into()); // D29
+            // D29b / D29c: VACUUM is explored in single-table worlds without UPDATE
+            p.guards.push("vacuum_with_more_than_one_table".into());
+            p.guards.push("vacuum_of_updated_rows".into());
+            p.max_tables = 1;
+            p.w_ddl = 0;
+            p.updates = false;
             p.w_vacuum = rng.range(4, 10) as u32;
             p.w_reopen = *rng.pick(&[0, 3]);
         }
